@@ -1,4 +1,4 @@
-\* quick: placement for every configuration at two heights (one too short for prompt + headers)
+\* quick: placement for every configuration x shown / hidden sections at two heights (one too short for prompt + headers); --no-input = the input section hidden from the start
 CONSTANTS
   Widths = {22}
   Heights = {4, 8}
@@ -8,7 +8,7 @@ CONSTANTS
   Headers <- MCHeadersQ
   Hlines <- MCHlinesQ
   HeaderFirsts = {TRUE, FALSE}
-  Inputless = {FALSE, TRUE}
+  Inputless = {FALSE}
   Pointers <- MCPointers
   Markers <- MCMarkers
   Ellipses <- MCEllipses
@@ -17,8 +17,14 @@ CONSTANTS
   Queries <- MCQueriesQ
   MaxCount = 12
   Tracks = {0}
-  Acts = {"move"}
+  Hscrolls = {FALSE}
+  HscrollOffs = {10}
+  KeepRights = {FALSE}
+  Scrollbars <- MCNoScrollbar
+  Borders = {FALSE}
+  Patterns <- MCPatternsNone
+  Acts = {"move", "vis"}
 INIT Init
 NEXT Next
-INVARIANTS InvPlace InvRowCount InvClaims InvOnePointer InvPointerOnCurrent InvHeaderOutsideList
+INVARIANTS InvHidden InvPlace InvRowCount InvClaims InvOnePointer InvPointerOnCurrent InvHeaderOutsideList
 CHECK_DEADLOCK FALSE
